@@ -6,6 +6,7 @@ package simrt
 
 import (
 	"fmt"
+	"runtime/metrics"
 	"syscall"
 	"strings"
 	"hash/fnv"
@@ -85,6 +86,7 @@ type Config struct {
 	// (a restriction of the schedule space used as a known-finding mask, DESIGN 5.3).
 	FIFOSubstr string
 	HB         bool
+	TrackAlloc bool
 }
 
 // Sim is the state of one run.
@@ -119,9 +121,14 @@ type Sim struct {
 	LeakedLocks  []string
 	maps         map[uintptr]*mapState
 	MapRaces     []MapRace
-	MaxStepWall  time.Duration // longest real time a single scheduling step took
+	MaxStepWall  time.Duration // most CPU time the process consumed during a single scheduling step
 	MaxStepName  string
 	stepStartReal time.Duration
+	stepStartAlloc uint64
+	MaxStepAlloc  uint64 // most bytes allocated during a single scheduling step (TrackAlloc)
+	MaxAllocName  string
+	TrackAlloc    bool
+	allocSample   []metrics.Sample
 	stepThread   *Thread
 	HB           bool // happens-before tracking for the map monitor (costly; enabled per scenario)
 	chanHB       SyncObj
@@ -145,11 +152,21 @@ func setCur(s *Sim) {
 	curMu.Unlock()
 }
 
-// realNow reads the real clock (time.Now is the fake clock inside a synctest bubble).
+// allocBytes returns the cumulative number of heap bytes allocated by the process (cheap, no stop-the-world).
+func (s *Sim) allocBytes() uint64 {
+	if s.allocSample == nil {
+		s.allocSample = []metrics.Sample{{Name: "/gc/heap/allocs:bytes"}}
+	}
+	metrics.Read(s.allocSample)
+	return s.allocSample[0].Value.Uint64()
+}
+
+// realNow returns the CPU time (user+system) this process has consumed.  time.Now is the fake clock
+// inside a synctest bubble, and wall-clock time would make step durations depend on machine load.
 func realNow() time.Duration {
-	var tv syscall.Timeval
-	_ = syscall.Gettimeofday(&tv)
-	return time.Duration(tv.Sec)*time.Second + time.Duration(tv.Usec)*time.Microsecond
+	var ru syscall.Rusage
+	_ = syscall.Getrusage(syscall.RUSAGE_SELF, &ru)
+	return time.Duration(ru.Utime.Sec+ru.Stime.Sec)*time.Second + time.Duration(ru.Utime.Usec+ru.Stime.Usec)*time.Microsecond
 }
 
 func goid() uint64 {
@@ -185,6 +202,7 @@ func New(cfg Config) *Sim {
 		hash:        14695981039346656037,
 		YieldCounts: map[string]uint64{},
 		HB:          cfg.HB,
+		TrackAlloc:  cfg.TrackAlloc,
 	}
 	if cfg.Policy == PolPCT {
 		s.pctChange = map[uint64]bool{}
@@ -556,6 +574,12 @@ func (s *Sim) Run() {
 				s.MaxStepWall = d
 				s.MaxStepName = s.stepThread.Name + " after " + s.stepThread.LastKind
 			}
+			if s.TrackAlloc {
+				if d := s.allocBytes() - s.stepStartAlloc; d > s.MaxStepAlloc {
+					s.MaxStepAlloc = d
+					s.MaxAllocName = s.stepThread.Name + " after " + s.stepThread.LastKind
+				}
+			}
 			s.stepThread = nil
 		}
 		s.mu.Lock()
@@ -720,6 +744,9 @@ func (s *Sim) Run() {
 			s.last = c.t
 			s.stepThread = c.t
 			s.stepStartReal = realNow()
+			if s.TrackAlloc {
+				s.stepStartAlloc = s.allocBytes()
+			}
 			s.mu.Unlock()
 			c.t.grant <- struct{}{}
 		} else {
